@@ -292,6 +292,9 @@ TRANSLATORS = {"scoring": ([("ScoringGen.v", "scoring")], "ScoringGenProof.v"),
                "irvinit": ([("IrvInitGen.v", "irvinit")], "IrvInitGenProof.v"),
                "irvrot": ([("IrvRotGen.v", "irvrot")], "IrvRotGenProof.v"),
                "irvall": ([("IrvAllGen.v", "irvall")], "IrvAllGenProof.v"),
+               "flowhelpers": ([("FlowHelpGen.v", "flowhelpers")], "FlowHelpGenProof.v"),
+               "wrappers": ([("WrapGen.v", "wrappers")], "WrapGenProof.v"),
+               "elicitclasses": ([("ElicitClsGen.v", "elicitclasses")], "ElicitClsGenProof.v"),
                "strictify": ([("StrictGen.v", "strictify")], "StrictGenProof.v"),
                "irvpipe": ([("IrvScfGen.v", "irvscf"), ("IrvScfGenProof.v", None), ("IrvInitGen.v", "irvinit"), ("IrvInitGenProof.v", None), ("IrvRotGen.v", "irvrot"), ("IrvRotGenProof.v", None),
                             ("IrvAllGen.v", "irvall"), ("IrvAllGenProof.v", None), ("IrvPosetGen.v", "irvposet"), ("IrvPosetGenProof.v", None), ("MwcsGen.v", "mwcs"), ("MwcsGenProof.v", None),
